@@ -81,6 +81,15 @@ func c08Item(r *rand.Rand, sel int, tier string) Ev {
 			}
 			d.Ident = id
 		}
+		if r.Intn(3) == 0 {
+			// the right letters elsewhere in the descriptor (event id, UPID text) do not make up for a wrong identifier
+			d.Cancel = false
+			if r.Intn(2) == 0 {
+				d.Eid = 0x43554549
+			} else {
+				d.UpidType, d.Mid, d.Upid = 9, nil, []byte("urn:CUEI:break1")
+			}
+		}
 		s.Descs = append(s.Descs, d)
 	case 24:
 		if r.Intn(2) == 0 {
